@@ -3,7 +3,7 @@
    spec_* are its one-line verb semantics (Store/Theorems.v). *)
 From stdpp Require Import gmap strings.
 From Coq Require Import NArith.
-From Verif Require Import Store.Model Store.Inv Store.Theorems.
+From Verif Require Import Store.Model Store.Inv Store.Theorems Store.EndInv.
 Local Open Scope N_scope.
 
 (* Refinement: each store verb (with its graveyard, index-table and session bookkeeping) has
@@ -32,6 +32,13 @@ Theorem C03_get_returns_map : forall idx k q s,
   q_key q = k ->
   txn_kv idx VGet q s = match kvs s !! k with Some x => Ok (s, [RKV k x true]) | None => Err ENotFound s end.
 Proof. exact read_get. Qed.
+
+(* the list verb returns exactly the map's entries under the prefix, each key once *)
+Theorem C03_list_returns_map : forall idx q s,
+  exists l, txn_kv idx VGetTree q s = Ok (s, (fun kv : string * kvent => RKV kv.1 kv.2 true) <$> l) /\
+            NoDup l.*1 /\
+            forall k e, (k, e) ∈ l <-> kvs s !! k = Some e /\ has_prefix (q_key q) k = true.
+Proof. exact read_tree. Qed.
 
 (* A write that changes nothing does not advance the modify index (the entry is untouched). *)
 Theorem C03_noop_keeps_modify : forall idx k v f l m x,
@@ -73,6 +80,22 @@ Theorem C03_deregister_frame : forall idx nd svc cid s,
                        else if negb (bool_decide (cid = "")) then delete_check idx nd cid s
                             else delete_node idx nd s).
 Proof. exact deregister_frame. Qed.
+(* Every command that is not a KV write, a transaction or a reap -- session create and destroy,
+   registration, deregistration, prepared-query writes -- leaves every key either untouched (row and
+   tombstone) or, when its holder's session ended in this command, deleted with a tombstone at the
+   command's index or released with value, flags, lock counter and create index kept, according to
+   the session's behaviour.  Nothing else can happen to the map. *)
+Theorem C03_other_commands_frame : forall idx c s,
+  LockInv s ->
+  match c with KVS _ _ | Txn _ | Reap _ => True | _ => KVEnd s idx (apply idx c s).1 end.
+Proof. exact kv_frame_command. Qed.
+
+(* The same for the node, service, check and session operations of a transaction, each on the state
+   it ran on; the KV operations of a transaction are the standalone verbs (C05_txn_kv_is_command),
+   so a committed transaction's effect on the map is the composition of verb steps and frame steps. *)
+Theorem C03_txn_frame : forall idx ops s, LockInv s -> TxnKVSteps idx ops s.
+Proof. exact kv_frame_in_txn. Qed.
+
 (* tombstone reaping never touches the map *)
 Theorem C03_reap_keeps_map : forall upto s, kvs (reap_tombstones upto s) = kvs s.
 Proof. reflexivity. Qed.
@@ -93,6 +116,7 @@ Print Assumptions C03_refines_delete_tree.
 Print Assumptions C03_refines_lock.
 Print Assumptions C03_refines_unlock.
 Print Assumptions C03_get_returns_map.
+Print Assumptions C03_list_returns_map.
 Print Assumptions C03_noop_keeps_modify.
 Print Assumptions C03_change_advances_modify.
 Print Assumptions C03_create_stable.
@@ -100,5 +124,7 @@ Print Assumptions C03_other_keys_untouched.
 Print Assumptions C03_lock_counter.
 Print Assumptions C03_session_destroy_frame.
 Print Assumptions C03_deregister_frame.
+Print Assumptions C03_other_commands_frame.
+Print Assumptions C03_txn_frame.
 Print Assumptions C03_reap_keeps_map.
 Print Assumptions C03_example.
